@@ -1111,6 +1111,7 @@ class SymExec:
                     finals = self.run_function(m, st, {m.params()[0]: obj}, depth + 1)
                     if len(finals) == 1 and finals[0].ret is not None:
                         return finals[0].ret
+                    SymExec.FOLLOWED.discard(m.qualname)  # interpreted, but the result was not usable: treated as opaque
                     return Sym(f"{obj.name}.{attr}")
                 if m is not None and not m.is_property:
                     return FuncRef(m, obj)
